@@ -18,6 +18,12 @@ Verdicts (`RESOLVED_VERDICT`): a disagreement between the real code and the mode
 cube — beyond the rounding budget, with all decision margins clear, is C07's own statement ("fits made from either,
 memory-mapped or not, agree") failing on this input: `violates=True`.  So is a band with `valid = 0` changing the result
 (`RES_unused_band`, checked metamorphically against a fitter built without that band).
+
+Histories: the fitters of a case are built in the case's order and all stay alive; after every construction every fitter
+alive is used again on every source and its mask is read again.  A share of the cases adds 1-3 further fitters of the same
+fluxes and array shape (cube / per-file, memory-mapped or not, remove_resolved on or off, filters permuted), each compared
+with the model for ITS option (option off = the plain C02 result, mask all False).  A fitter whose result or mask differs
+from what it gave right after its own construction -> `violates=True` (C11 / C07: a result does not depend on history).
 """
 import gc
 import math
@@ -51,7 +57,12 @@ REQUIRED_BRANCHES = ['fmt_files', 'fmt_cube', 'memmap_on', 'memmap_off', 'mask_c
                      'unused_band_resolved', 'unused_band_dropped_same_fit', 'flag9_band_removes', 'radius_inside_loop',
                      'radius_last_aperture', 'beyond_table', 'entirely_beyond_table', 'single_distance', 'multi_distance',
                      'grid_dependence', 'best_first_kept', 'best_later_kept', 'cross_files_cube', 'cross_memmap',
-                     'limit_band', 'clamped', 'unclamped']
+                     'limit_band', 'clamped', 'unclamped',
+                     # histories: several fitters of the same fluxes alive together, each used again after every construction
+                     'refit_after_build_same', 'history', 'hist_option_mixed', 'hist_two_memmap_alive', 'hist_memmap_off_then_on',
+                     'hist_memmap_on_then_off', 'hist_memmap_on_then_on', 'hist_memmap_on_then_on_permuted', 'hist_permuted_filters',
+                     'hist_extra_per_file', 'hist_extra_in_memory', 'hist_main_built_after_extra', 'fitter_off_matches_unmasked',
+                     'fitter_on_matches_masked']
 # `all_removed` (every trial distance removed for a source: chi2 = +inf, index 0 reported) is NOT listed: theorem
 # RES_fit_kept proves it unreachable for the code as written (the radius never exceeds theta*dmax, so the farthest trial
 # distance is always kept).  If the model ever predicts it, or the real code ever reports chi2 = +inf, the case fails.
@@ -221,9 +232,29 @@ def gen_case(rng, directed=None):
                 fl.append(f)
                 er.append(float('%.3g' % (f * nice(rng, 1e-2, 0.5, 2))))
         sources.append(dict(flags=flags, flux=fl, err=er))
+    # histories: further fitters of the same fluxes (same array shapes) alive together with the three main ones
+    history, order = directed.get('history'), directed.get('order')
+    if history is None and (directed.get('hist') or (not directed and rng.random() < 0.35)):
+        history = []
+        for _ in range(rng.choice([1, 1, 2, 2, 3])):
+            perm = None
+            if nb >= 2 and rng.random() < 0.4:
+                perm = list(range(nb))
+                while perm == list(range(nb)):
+                    rng.shuffle(perm)
+            history.append(dict(pkg=rng.choice(['cube', 'cube', 'cube', 'files']), memmap=rng.random() < 0.65,
+                                rr=rng.random() < 0.5, perm=perm))
+        order = list(range(3 + len(history)))
+        rng.shuffle(order)
+    if history:
+        history = [dict(h, perm=(h.get('perm') if h.get('perm') != 'reverse' else list(range(nb))[::-1])) for h in history]
+        for h in history:
+            if h['pkg'] == 'files':
+                h['memmap'] = False       # the per-file reader has no memory-mapped mode
     return dict(kind=directed.get('kind', 'random'), wavs=wavs, tab_w=tw, tab_chi=chi, thetas=thetas, aps=aps, flux=flux,
                 dmin=dmin, dmax=dmax, step=step, av=av, sources=sources, akind=akind, special=special,
-                unused=bool(directed.get('unused')), flag9=bool(directed.get('flag9')))
+                unused=bool(directed.get('unused')), flag9=bool(directed.get('flag9')), history=history or None,
+                order=order if history else None)
 
 
 def grid_case(k):
@@ -254,7 +285,21 @@ DIRECTED = [dict(grid=0), dict(grid=1), dict(grid=2), dict(grid=3),
             dict(style='compact', npts=6, akind='inside'), dict(style='compact', npts=8, akind='beyond'),
             dict(style='mid', npts=10, akind='inside'), dict(style='mid', npts=6, akind='mixed', av='narrow'),
             dict(style='mixed', npts=12, akind='beyond'), dict(style='mixed', npts=3, akind='inside', nap=2),
-            dict(style='mid', npts=2, akind='inside'), dict(style='steep', npts=5, akind='beyond', nap=6)]
+            dict(style='mid', npts=2, akind='inside'), dict(style='steep', npts=5, akind='beyond', nap=6),
+            # histories.  extra fitter = index 3..; main: 0 per-file, 1 cube in memory, 2 cube memory-mapped (option on)
+            # a memory-mapped fitter with the option OFF is built and used, then the memory-mapped one with the option ON
+            dict(style='mixed', npts=8, akind='inside', history=[dict(pkg='cube', memmap=True, rr=False, perm=None)], order=[3, 0, 1, 2]),
+            dict(style='mid', npts=6, akind='inside', history=[dict(pkg='cube', memmap=True, rr=False, perm=None)], order=[3, 2, 1, 0]),
+            # option ON, memory-mapped, then another memory-mapped one with the filters reversed; a source with an unused band
+            dict(unused=True, npts=6, akind='inside', nb=3, history=[dict(pkg='cube', memmap=True, rr=True, perm='reverse')], order=[2, 3, 0, 1]),
+            dict(unused=True, npts=8, akind='inside', nb=4, history=[dict(pkg='cube', memmap=True, rr=True, perm='reverse'),
+                                                                      dict(pkg='cube', memmap=True, rr=False, perm=None)], order=[2, 3, 4, 1, 0]),
+            dict(style='steep', npts=5, akind='inside', history=[dict(pkg='cube', memmap=True, rr=False, perm=None),
+                                                                  dict(pkg='cube', memmap=False, rr=False, perm='reverse'),
+                                                                  dict(pkg='files', memmap=False, rr=False, perm=None)], order=[2, 3, 4, 5, 0, 1]),
+            dict(style='mixed', npts=10, akind='beyond', history=[dict(pkg='cube', memmap=True, rr=True, perm=None),
+                                                                   dict(pkg='cube', memmap=True, rr=False, perm='reverse')], order=[3, 4, 2, 0, 1]),
+            dict(flag9=True, npts=6, akind='inside', nb=3, history=[dict(pkg='cube', memmap=True, rr=False, perm='reverse')], order=[0, 1, 3, 2])]
 
 
 def gen_cases(seed, tier):
@@ -301,10 +346,37 @@ def cube_entries(case, bands=None):
     return [case['wavs'][j] * u.micron for j in (bands if bands is not None else range(len(case['wavs'])))]
 
 
-def make_fitter(case, d, entries, ext, use_memmap, bands=None):
+def make_fitter(case, d, entries, ext, use_memmap, bands=None, remove_resolved=True):
     th = [case['thetas'][j] for j in (bands if bands is not None else range(len(case['wavs'])))]
     return pk.make_fitter(d, entries, th, ext, case['av'], (case['dmin'], case['dmax']),
-                          use_memmap=use_memmap, remove_resolved=True)
+                          use_memmap=use_memmap, remove_resolved=remove_resolved)
+
+
+# the three fits every case compares; a history adds further fitters of the same fluxes (same array shapes), with the
+# option on or off, memory-mapped or not, the filters in another order, all alive together
+MAIN = [dict(tag='files', pkg='files', memmap=False, rr=True, perm=None),
+        dict(tag='cube_mem', pkg='cube', memmap=False, rr=True, perm=None),
+        dict(tag='cube_memmap', pkg='cube', memmap=True, rr=True, perm=None)]
+
+
+def spec_name(sp):
+    return '%s(%s package, use_memmap=%r, remove_resolved=%r%s)' % (sp['tag'], sp['pkg'], sp['memmap'], sp['rr'],
+                                                                     ', filters in order %r' % sp['perm'] if sp['perm'] else '')
+
+
+def fit_all(fitter, case, perm, names):
+    """every source of the case through one fitter: [source] -> {model name: (av, sc, chi2)}"""
+    out = []
+    for si, src in enumerate(case['sources']):
+        order = perm if perm else list(range(len(src['flags'])))
+        s = pk.make_source('s%d' % si, [src['flags'][j] for j in order], [src['flux'][j] for j in order],
+                           [src['err'][j] for j in order])
+        with common.quiet():
+            g = pk.fit_arrays(fitter.fit(s))
+        if sorted(g['name']) != sorted(names):
+            raise ValueError('model names %r; the package has %r' % (g['name'], names))
+        out.append({n: (float(g['av'][r]), float(g['sc'][r]), float(g['chi2'][r])) for r, n in enumerate(g['name'])})
+    return out
 
 
 # ----------------------------------------------------------------------------- model side
@@ -423,19 +495,68 @@ def run_case(case):
             return CaseResult(False, key=key, violates=RESOLVED_VERDICT,
                               detail='model refuses the package (%s) although theta*dmin >= 1.001 x the smallest aperture: %s'
                               % (exp['error'], describe(case)))
-        # ---- the three fitters
+        # ---- the fitters: the three every case compares, plus the history's; built in the case's order, all kept alive;
+        # after every construction every fitter alive is used on every source and its mask is read again
+        specs = [dict(sp) for sp in MAIN] + [dict(sp, tag='extra%d' % k) for k, sp in enumerate(case.get('history') or [])]
+        order = case.get('order') or list(range(len(specs)))
+        built = {}          # tag -> fitter
+        records = {}        # tag -> [after each later construction][source]{name: (av, sc, chi2)}
+        snaps = {}          # tag -> fitter.models.extended as read right after construction
+        seen_by = {}        # tag -> the fitters built after it
         errors = {}
-        for tag, _, mm in PATHS:
+        for pos in order:
+            sp = specs[pos]
+            bands = sp['perm'] if sp['perm'] else None
             try:
-                fitters[tag] = make_fitter(case, d1 if tag == 'files' else d2,
-                                           fnames if tag == 'files' else cube_entries(case), ext, mm)
+                if sp['pkg'] == 'files':
+                    ent = [fnames[j] for j in (bands or range(nb))]
+                    f = make_fitter(case, d1, ent, ext, sp['memmap'], bands=bands, remove_resolved=sp['rr'])
+                else:
+                    f = make_fitter(case, d2, cube_entries(case, bands), ext, sp['memmap'], bands=bands, remove_resolved=sp['rr'])
             except Exception as e:      # noqa: BLE001
-                errors[tag] = '%s: %s' % (type(e).__name__, e)
+                errors[sp['tag']] = '%s: %s' % (type(e).__name__, e)
+                continue
+            built[sp['tag']] = f
+            records[sp['tag']] = []
+            seen_by[sp['tag']] = []
+            ex = getattr(f.models, 'extended', None)
+            snaps[sp['tag']] = np.array(ex, dtype=bool) if isinstance(ex, np.ndarray) else ex
+            for sq in specs:
+                tag = sq['tag']
+                if tag not in built:
+                    continue
+                if tag != sp['tag']:
+                    seen_by[tag].append(spec_name(sp))
+                try:
+                    records[tag].append(fit_all(built[tag], case, sq['perm'], names))
+                except Exception as e:      # noqa: BLE001
+                    return CaseResult(False, key=key, violates=RESOLVED_VERDICT, branches=branches,
+                                      detail='%s: fit raised %s: %s (%s)' % (spec_name(sq), type(e).__name__, e, describe(case)))
+                # a fitter's answer does not depend on what else was built meanwhile (C11 / C07)
+                first, last = records[tag][0], records[tag][-1]
+                exn = getattr(built[tag].models, 'extended', None)
+                exn = np.array(exn, dtype=bool) if isinstance(exn, np.ndarray) else exn
+                mask_same = (isinstance(exn, np.ndarray) and isinstance(snaps[tag], np.ndarray) and exn.shape == snaps[tag].shape
+                             and bool(np.all(exn == snaps[tag]))) or (not isinstance(exn, np.ndarray) and not isinstance(snaps[tag], np.ndarray))
+                if last != first or not mask_same:
+                    diff = [(si, n, first[si][n], last[si][n]) for si in range(len(first)) for n in names if first[si][n] != last[si][n]][:3]
+                    return CaseResult(False, key=key, violates=True, branches=branches,
+                                      detail=('the fitter %s gave, right after its construction, (source, model, (av, sc, chi2)) = %r; after the '
+                                              'construction of %s the SAME fitter gives %r for the same sources%s; fitters built meanwhile: %r (%s)'
+                                              % (spec_name(sq), [(a, b, c) for a, b, c, _ in diff], spec_name(sp), [(a, b, e_) for a, b, _, e_ in diff],
+                                                 '' if mask_same else '; its fitter.models.extended changed as well (%d cells)' % (
+                                                     int(np.sum(exn != snaps[tag])) if isinstance(exn, np.ndarray) and isinstance(snaps[tag], np.ndarray)
+                                                     and exn.shape == snaps[tag].shape else -1),
+                                                 seen_by[tag], describe(case))))
+        fitters.update({tag: built[tag] for tag in ('files', 'cube_mem', 'cube_memmap') if tag in built})
+        extras_alive = {tag: f for tag, f in built.items() if tag not in fitters}
+        fitters_all = built
         if errors:
-            some_ok = len(errors) < len(PATHS)
+            some_ok = len(errors) < len(specs)
             return CaseResult(False, key=key, violates=True if some_ok else RESOLVED_VERDICT, branches=branches,
-                              detail='Fitter(..., remove_resolved=True) raised on an in-domain package for %r%s (%s)'
+                              detail='Fitter(...) raised on an in-domain package for %r%s (%s)'
                               % (errors, ' while the same fluxes held otherwise are accepted' if some_ok else '', describe(case)))
+        branches.add('refit_after_build_same')
         branches |= {'fmt_files', 'fmt_cube', 'memmap_on', 'memmap_off'}
         if exp['ceil_m'] < MARGIN:
             x_float = 1 + (np.log10(case['dmax']) - np.log10(case['dmin'])) / case['step']
@@ -456,7 +577,7 @@ def run_case(case):
         # ---- the mask
         masks = {}
         for tag, f in fitters.items():
-            ex = f.models.extended
+            ex = snaps[tag]          # as read right after construction (and verified unchanged since)
             if not isinstance(ex, np.ndarray) or ex.shape != (nm, nd, nb):
                 return CaseResult(False, key=key, violates=RESOLVED_VERDICT, branches=branches,
                                   detail='%s: fitter.models.extended is %r, expected a boolean array of shape %r'
@@ -487,6 +608,47 @@ def run_case(case):
                                                   '(theta d < radius) = %r; other fits of the same fluxes: %r (%s)'
                                                   % (tag, i, j, [bool(x) for x in masks[tag][i, :, j]], float(b['radius']), b['kind'],
                                                      radii[j], case['aps'][-1], b['mask'], others, describe(case))))
+        # the history's fitters: the mask for THEIR option and filter order (all False with the option off)
+        for sp in specs[3:]:
+            ex = snaps[sp['tag']]
+            if not isinstance(ex, np.ndarray) or ex.shape != (nm, nd, nb):
+                return CaseResult(False, key=key, violates=RESOLVED_VERDICT, branches=branches,
+                                  detail='%s: fitter.models.extended is %r, expected a boolean array of shape %r'
+                                  % (spec_name(sp), getattr(ex, 'shape', type(ex)), (nm, nd, nb)))
+            cols = sp['perm'] if sp['perm'] else list(range(nb))
+            for i in range(nm):
+                for pos, j in enumerate(cols):
+                    wantm = exp['models'][i][j]['mask'] if sp['rr'] else [False] * nd
+                    if (clear[i, j] or not sp['rr']) and [bool(x) for x in ex[i, :, pos]] != wantm:
+                        return CaseResult(False, key=key, violates=RESOLVED_VERDICT, branches=branches,
+                                          detail='%s: extended[model %d, :, filter %d (band %d)] = %r right after construction; expected %r (%s)'
+                                          % (spec_name(sp), i, pos, j, [bool(x) for x in ex[i, :, pos]], wantm, describe(case)))
+        if len(specs) > 3:
+            branches.add('history')
+            pos_of = {specs[k]['tag']: n for n, k in enumerate(order)}
+            if len({sp['rr'] for sp in specs}) == 2:
+                branches.add('hist_option_mixed')
+            if any(sp['perm'] for sp in specs[3:]):
+                branches.add('hist_permuted_filters')
+            if any(sp['pkg'] == 'files' for sp in specs[3:]):
+                branches.add('hist_extra_per_file')
+            mm = [sp for sp in specs if sp['memmap']]
+            if len(mm) >= 2:
+                branches.add('hist_two_memmap_alive')
+            for a in mm:
+                for b in mm:
+                    if pos_of[a['tag']] < pos_of[b['tag']]:
+                        # a is used again after b (also memory-mapped, same array shape) was built
+                        if not a['rr'] and b['rr']:
+                            branches.add('hist_memmap_off_then_on')
+                        if a['rr'] and not b['rr']:
+                            branches.add('hist_memmap_on_then_off')
+                        if a['rr'] and b['rr']:
+                            branches.add('hist_memmap_on_then_on_permuted' if (b['perm'] or a['perm']) else 'hist_memmap_on_then_on')
+            if pos_of['cube_memmap'] > min(pos_of[sp['tag']] for sp in specs[3:]):
+                branches.add('hist_main_built_after_extra')
+            if any(not sp['memmap'] for sp in specs[3:]):
+                branches.add('hist_extra_in_memory')
         branches.add('mask_compared')
         if case.get('expect_mask_band0') is not None:
             got = [bool(x) for x in masks['cube_mem'][0, :, 0]]
@@ -504,18 +666,6 @@ def run_case(case):
         n_changed = n_total = 0
         removed_any = False
         for si, src in enumerate(case['sources']):
-            got = {}
-            for tag, f in fitters.items():
-                try:
-                    with common.quiet():
-                        info = f.fit(pk.make_source('s%d' % si, src['flags'], src['flux'], src['err']))
-                    got[tag] = pk.fit_arrays(info)
-                except Exception as e:      # noqa: BLE001
-                    return CaseResult(False, key=key, violates=RESOLVED_VERDICT, branches=branches,
-                                      detail='%s: fit raised %s: %s (source %r; %s)' % (tag, type(e).__name__, e, src, describe(case)))
-                if sorted(got[tag]['name']) != sorted(names):
-                    return CaseResult(False, key=key, violates=RESOLVED_VERDICT, branches=branches,
-                                      detail='%s: model names %r; the package has %r' % (tag, got[tag]['name'], names))
             if any(f in (2, 3) for f in src['flags']):
                 branches.add('limit_band')
             used = [j for j in range(nb) if src['flags'][j] > 0]
@@ -530,9 +680,7 @@ def run_case(case):
                                              'RES_fit_kept (%s)' % (si, nme, describe(case)))
                 tol = {tag: budgets(case, e, src, av_law, lmax, mm) for tag, _, mm in PATHS}
                 tol0 = {tag: budgets(case, dict(e, chi2=e['chi0'], av=e['av0'], gap=e['gap0']), src, av_law, lmax, mm) for tag, _, mm in PATHS}
-                rows = {tag: got[tag]['name'].index(nme) for tag in got}
-                val = {tag: (float(got[tag]['av'][rows[tag]]), float(got[tag]['sc'][rows[tag]]), float(got[tag]['chi2'][rows[tag]]))
-                       for tag in got}
+                val = {tag: records[tag][0][si][nme] for tag in fitters}
                 want = (float(e['av']), float(e['sc']), float(e['chi2']))
                 # model vs each real fit
                 for tag, _, mm in PATHS:
@@ -574,6 +722,22 @@ def run_case(case):
                                                       'removed distances %r, masked optimum %r at index %d, unmasked optimum %r at index %d; %s'
                                                       % (si, src['flags'], src['flux'], src['err'], nme, ta, va, tb, vb, at, ct, e['reset'], want,
                                                          e['bi'], (float(e['av0']), float(e['sc0']), float(e['chi0'])), e['bi0'], describe(case))))
+                # the history's fitters against the model for THEIR option: with remove_resolved off the plain C02 result
+                for sp in specs[3:]:
+                    tag = sp['tag']
+                    tt = budgets(case, e if sp['rr'] else dict(e, chi2=e['chi0'], av=e['av0'], gap=e['gap0']), src, av_law, lmax, sp['memmap'])
+                    if tt[2]:
+                        relaxed += 1
+                        continue
+                    w_ = want if sp['rr'] else (float(e['av0']), float(e['sc0']), float(e['chi0']))
+                    a, s_, c = records[tag][0][si][nme]
+                    if not (abs(a - w_[0]) <= tt[0] and abs(s_ - w_[1]) <= 1e-9 and abs(c - w_[2]) <= tt[1] and np.isfinite(c)):
+                        return CaseResult(False, key=key, violates=RESOLVED_VERDICT, branches=branches,
+                                          detail=('source %d (flags %r) model %s through %s, first use: (av, sc, chi2) = %r; the model for this option '
+                                                  '(%s) gives %r (removed distances with the option on: %r); %s'
+                                                  % (si, src['flags'], nme, spec_name(sp), (a, s_, c),
+                                                     'masked first minimum' if sp['rr'] else 'plain C02 grid minimum, no mask', w_, e['reset'], describe(case))))
+                    branches.add('fitter_on_matches_masked' if sp['rr'] else 'fitter_off_matches_unmasked')
                 if any(tol[tag][2] for tag in ('files', 'cube_mem')):
                     continue
                 # ---- what the option did (measured on cases with clear margins)
